@@ -171,6 +171,13 @@ UNIT = ('tuple', ())
 # terms of a local vector whose content the interpreter keeps track of: known elements; a vector + one pushed element; a vector +
 # the elements of a list (extend / extend_from_slice)
 TRACKED_VEC = ('vec', 'vecpush', 'concat')
+
+def octets_as_vec(v):
+    """a byte vector whose octets are all known (the literal byte string a `collect` / `to_vec` of known octets yields) as the
+    vector of its elements, so that push / insert on it keep every element known; any other value as it is"""
+    if v is not None and v[0] == 'lit' and isinstance(v[1], bytes):
+        return ('vec', tuple(('lit', x) for x in v[1]))
+    return v
 TRUE, FALSE = ('lit', True), ('lit', False)
 
 def int_log2(x):
@@ -1568,7 +1575,7 @@ class Interp:
                 for o in self.ev(e['args'][0], st):
                     if o.kind != 'val':
                         outs.append(o); continue
-                    old = self.vec_read(tgt, o.st)
+                    old = octets_as_vec(self.vec_read(tgt, o.st))
                     base = old
                     npop = o.st.heap.get(('cursor', old), 0)
                     if npop and old[0] != 'vec':
@@ -1692,7 +1699,7 @@ class Interp:
                 outs = list(abn)
                 handled = True
                 for (k, x), s1 in res:
-                    old = s1.env.get(recv['bind'], ('unk', 'vec'))
+                    old = octets_as_vec(s1.env.get(recv['bind'], ('unk', 'vec')))
                     if old[0] == 'vec' and k[0] == 'lit' and isinstance(k[1], int) and 0 <= k[1] <= len(old[1]):
                         new = ('vec', old[1][:k[1]] + (x,) + old[1][k[1]:])
                         outs.append(Out('val', UNIT, s1.set(recv['bind'], new).event(('call', cal, (old, k, x), e))))
@@ -1829,7 +1836,17 @@ class Interp:
         for vals, s in res:
             for o in self.call(cal, vals, e, s):
                 if forget is not None and o.kind == 'val':
-                    o = Out('val', o.val, o.st.set(forget, ('unk', 'vector after %s()' % cal.rsplit('::', 1)[-1])))
+                    after = ('unk', 'vector after %s()' % cal.rsplit('::', 1)[-1])
+                    if cal.rsplit('::', 1)[-1] in ('extend', 'extend_from_slice') and 'alloc::vec::Vec' in cal and len(vals) == 2:
+                        # vec.extend(seq) with a sequence whose elements are all known (an iterator over literal octets, whatever adaptor
+                        # type it has statically): afterwards the vector holds its old elements followed by those, in order (std: Extend
+                        # pushes every item the iterator yields; `&u8` items are copied)
+                        src = vals[1]
+                        while src[0] == 'call' and src[1].rsplit('::', 1)[-1] in ('into_iter', 'iter', 'copied', 'cloned') and len(src[2]) == 1:
+                            src = src[2][0]
+                        if (src[0] == 'lit' and isinstance(src[1], bytes)) or src[0] in ('vec', 'array'):
+                            after = ('concat', s.env.get(forget), src)
+                    o = Out('val', o.val, o.st.set(forget, after))
                 outs.append(o)
         return outs + abn
 
@@ -3022,6 +3039,8 @@ def builtin_summary(I, cal, args, node, st):
     if I.combinators and (is_opt or is_res) and name in ('unwrap_or', 'unwrap_or_else', 'unwrap_or_default', 'ok_or', 'ok_or_else', 'map_or', 'map_or_else') and args:
         good, bad = ('Some', 'None') if is_opt else ('Ok', 'Err')
         v = args[0]
+        while v[0] == 'tryerr':          # (the value a failed `?` of an inlined callee handed back IS that Err / None)
+            v = v[1]
         if v[0] == 'ctor' and v[1] in (good, bad):
             cases = [(v[1], v[2][0] if v[2] else UNIT, st)]
         else:
@@ -3087,6 +3106,8 @@ def builtin_summary(I, cal, args, node, st):
                 return outs
     if I.result_combinators and is_res and name in ('map_err', 'ok', 'err') and args and (name != 'map_err' or (len(args) == 2 and args[1][0] in ('closure', 'fn'))):
         v = args[0]
+        while v[0] == 'tryerr':          # (the value a failed `?` of an inlined callee handed back IS that Err)
+            v = v[1]
         if v[0] == 'ctor' and v[1] in ('Ok', 'Err'):
             cases = [(v[1], v[2][0] if v[2] else UNIT, st)]
         else:
@@ -3112,7 +3133,7 @@ def builtin_summary(I, cal, args, node, st):
         r = known_seq_summary(I, cal, name, args, node, st)
         if r is not None:
             return r
-    if ('iterator::Iterator::' in cal or 'core::iter::traits::iterator::Iterator>::' in cal) and args and name in ('skip_while', 'take_while', 'filter', 'skip', 'take', 'count', 'any', 'all', 'position', 'find'):
+    if ('iterator::Iterator::' in cal or 'core::iter::traits::iterator::Iterator>::' in cal) and args and name in ('skip_while', 'take_while', 'filter', 'skip', 'take', 'count', 'any', 'all', 'position', 'find', 'rev', 'rposition', 'last'):
         # iterator adaptors over the octets of a literal byte string (std's definitions applied to the known elements):
         #   skip_while(p)  everything from the first element p rejects;   take_while(p)  everything before it;   filter(p)  the elements
         #   p accepts;   skip(n) / take(n)  without / only the first n;   count()  the number of elements.
@@ -3125,6 +3146,28 @@ def builtin_summary(I, cal, args, node, st):
             octs = src[1]
             if name == 'count' and len(args) == 1:
                 return [Out('val', ('lit', len(octs)), st)]
+            if name == 'rev' and len(args) == 1:
+                # rev(): the same elements, last first (an iterator over a slice / array is double-ended and yields every element once)
+                return [Out('val', ('lit', octs[::-1]), st)]
+            if name == 'last' and len(args) == 1:
+                # last(): the final element the iterator yields, None for an empty one
+                return [Out('val', ('ctor', 'Some', (('lit', octs[-1]),)) if octs else ('ctor', 'None', ()), st)]
+            if name == 'rposition' and len(args) == 2 and args[1][0] in ('closure', 'fn'):
+                # rposition(p): std applies p from the back and answers Some(i), i the index counted from the FRONT, for the last
+                # element p accepts, None when there is none; no model when the predicate does not decide on an element
+                s, okm, hit = st, True, None
+                for i_ in range(len(octs) - 1, -1, -1):
+                    outs_ = [o for o in I.apply(args[1], [('lit', octs[i_])], node, s)]
+                    if len(outs_) != 1 or outs_[0].kind != 'val':
+                        okm = False; break
+                    ds = I.decide(outs_[0].val, outs_[0].st)
+                    if len(ds) != 1:
+                        okm = False; break
+                    s = ds[0][1]
+                    if ds[0][0]:
+                        hit = i_; break
+                if okm:
+                    return [Out('val', ('ctor', 'Some', (('lit', hit),)) if hit is not None else ('ctor', 'None', ()), s)]
             if name in ('skip', 'take') and len(args) == 2 and args[1][0] == 'lit' and isinstance(args[1][1], int) and not isinstance(args[1][1], bool) and args[1][1] >= 0:
                 return [Out('val', ('lit', octs[args[1][1]:] if name == 'skip' else octs[:args[1][1]]), st)]
             if name in ('any', 'all', 'position', 'find') and len(args) == 2 and args[1][0] in ('closure', 'fn'):
@@ -3267,6 +3310,13 @@ def builtin_summary(I, cal, args, node, st):
             list(args[0][1]) if args[0][0] in ('array', 'vec') else None
         if xs is not None and all(ordinal(e) is not None and ordinal(e)[0] == ordinal(args[1])[0] for e in xs):
             return [Out('val', ('lit', any(ordinal(e) == ordinal(args[1]) for e in xs)), st)]
+    if name in ('starts_with', 'ends_with') and cal.startswith('core::slice::<impl [T]>::') and len(args) == 2 and seq_elems(args[0]) is not None and seq_elems(args[1]) is not None:
+        # slice.starts_with(needle) / ends_with(needle) with every element of both known integers: needle.len() <= len and the first /
+        # last needle.len() elements equal the needle's, element by element (true for the empty needle)
+        hay, ndl = seq_elems(args[0])[0], seq_elems(args[1])[0]
+        if all(x[0] == 'lit' and isinstance(x[1], int) and not isinstance(x[1], bool) for x in hay + ndl):
+            part = hay[:len(ndl)] if name == 'starts_with' else hay[len(hay) - len(ndl):] if len(ndl) <= len(hay) else None
+            return [Out('val', ('lit', len(ndl) <= len(hay) and part == ndl), st)]
     if cal == 'core::mem::size_of' and not args:
         # size_of::<T>() of a fixed-width integer type is its width in octets (usize / isize: 8 on the 64-bit target the facts are
         # extracted for - the same assumption as INT_RANGE); any other type stays an opaque call
@@ -3345,13 +3395,31 @@ def builtin_summary(I, cal, args, node, st):
     if name == 'skip' and ('iterator::Iterator::' in cal or 'Iterator>::' in cal) and len(args) == 2 and args[0][0] == 'lit' and isinstance(args[0][1], bytes) \
             and args[1][0] == 'lit' and isinstance(args[1][1], int):
         return [Out('val', ('lit', args[0][1][args[1][1]:]), st)]
-    if name in ('leading_zeros', 'trailing_zeros', 'count_ones') and cal.startswith('core::num::<impl ') and len(args) == 1 and args[0][0] == 'lit' and isinstance(args[0][1], int):
+    if name in ('leading_zeros', 'trailing_zeros', 'count_ones', 'leading_ones', 'trailing_ones', 'count_zeros') and cal.startswith('core::num::<impl ') and len(args) == 1 \
+            and args[0][0] == 'lit' and isinstance(args[0][1], int) and not isinstance(args[0][1], bool):
+        # bit counts of the two's-complement representation of a known number in the width of its type (x: that representation read as
+        # an unsigned number); the *_ones / count_zeros functions are the *_zeros / count_ones functions of the complement
         ity = cal[len('core::num::<impl '):].split('>')[0]
         bits = {'8': 8, '16': 16, '32': 32, '64': 64, 'size': 64}.get(ity[1:])
         if bits:
             x = args[0][1] & ((1 << bits) - 1)
-            r = {'leading_zeros': bits - x.bit_length(), 'trailing_zeros': (bits if x == 0 else (x & -x).bit_length() - 1), 'count_ones': bin(x).count('1')}[name]
+            if name in ('leading_ones', 'trailing_ones', 'count_zeros'):
+                x = ~x & ((1 << bits) - 1)
+            base = {'leading_ones': 'leading_zeros', 'trailing_ones': 'trailing_zeros', 'count_zeros': 'count_ones'}.get(name, name)
+            r = {'leading_zeros': bits - x.bit_length(), 'trailing_zeros': (bits if x == 0 else (x & -x).bit_length() - 1), 'count_ones': bin(x).count('1')}[base]
             return [Out('val', ('lit', r), st)]
+    if name in ('checked_shr', 'checked_shl') and cal.startswith('core::num::<impl ') and len(args) == 2 \
+            and all(a[0] == 'lit' and isinstance(a[1], int) and not isinstance(a[1], bool) for a in args):
+        # checked_shr(x, n) / checked_shl(x, n): None when n is at least the width of x's type, else Some(x >> n) / Some(x << n) - the
+        # shift of the type: arithmetic for signed x, and bits shifted out at the top are dropped (the result wraps into the type)
+        ity = cal[len('core::num::<impl '):].split('>')[0]
+        bits = {'8': 8, '16': 16, '32': 32, '64': 64, 'size': 64}.get(ity[1:])
+        rng = INT_RANGE.get(ity)
+        if bits and rng is not None and args[1][1] >= 0:
+            if args[1][1] >= bits:
+                return [Out('val', ('ctor', 'None', ()), st)]
+            r = args[0][1] >> args[1][1] if name == 'checked_shr' else (((args[0][1] << args[1][1]) - rng[0]) % (1 << bits)) + rng[0]
+            return [Out('val', ('ctor', 'Some', (('lit', r),)), st)]
     if name in ('ilog2', 'checked_ilog2') and cal.startswith('core::num::<impl ') and len(args) == 1 and args[0][0] == 'lit' and isinstance(args[0][1], int) and not isinstance(args[0][1], bool):
         # ilog2(x) = floor(log2 x) = bit length of x minus one for every x > 0; for x <= 0 ilog2 panics (in every build profile) and
         # checked_ilog2 answers None
